@@ -123,6 +123,15 @@ def selftest():
         cases.append(("trace: one recorded event dropped", "trace_kb2", {"TRACE": p}, "C18"))
 
         failed = 0
+        # specification-side negative controls: a deliberately broken stage spec must violate its property
+        for job, what in (("neg_mc_event", "spec: LAlt release clears the AltGr flag (MC_Event)"),
+                          ("neg_mc_set2", "spec: context not reset after an undefined E0 F0 code (MC_Set2)")):
+            try:
+                r = pkverif.run_tlc(ctx, "selftest_" + job, pkverif.JOBS[job])
+                log("selftest: %-70s rejected (%s)" % (what, r["notes"]))
+            except pkverif.ToolError as e:
+                log("selftest: %-70s NOT REJECTED %s" % (what, str(e)[:200]))
+                failed += 1
         for what, job, env, pid in cases:
             spec = pkverif.JOBS[job]
             try:
